@@ -67,6 +67,9 @@ def to_z3(v):
 
 def to_real(v):
     if isinstance(v, NF):
+        nul = v.null
+        if nul is False or (is_z3(nul) and z3.is_false(z3.simplify(nul))):
+            return v.val          # a float slot that provably holds a number
         raise Unsupported("nullable used where a real is needed")
     v = to_z3(v)
     if v.sort() == R:
